@@ -698,6 +698,13 @@ pub fn fuzz_campaign_sub(run: &Run, target: &str, sub_f: Option<(&str, &CaseFn<'
     }
     let bin = fuzz_dir.join("target/x86_64-unknown-linux-gnu/release").join(target);
     let seeds = fuzz_dir.join("corpus").join(target);
+    let _ = std::fs::create_dir_all(&seeds);
+    if std::fs::read_dir(&seeds).map(|mut d| d.next().is_none()).unwrap_or(true) {
+        // no committed seeds for this target: start from all-zero choice sequences
+        let _ = std::fs::write(seeds.join("zeros-64"), vec![0u8; 64]);
+        let _ = std::fs::write(seeds.join("zeros-512"), vec![0u8; 512]);
+        let _ = std::fs::write(seeds.join("ramp"), (0..1024u32).flat_map(|i| (i.wrapping_mul(0x9E37_79B9)).to_le_bytes()).collect::<Vec<u8>>());
+    }
     let label = match sub {
         Some(s) => format!("{target}-{}-{s}", run.prop),
         None => target.to_string(),
